@@ -15,6 +15,9 @@ HERE = os.path.dirname(os.path.abspath(__file__))
 if HERE not in sys.path: sys.path.insert(0, HERE)
 import c05_worker as W
 import c05_oracle as O
+import c05_file as F
+
+FILE_CORR = 'open_listing+set_index(Coq Reader.v)-vs-t2listing'
 
 NEG2 = 'start_of_values:fixed-point-first-number-then-signed-number'
 
@@ -100,6 +103,63 @@ def collect(ctx, results):
     return tot
 
 
+def file_level(ctx, exe, files, root, results):
+    """the whole reader against the extracted model, on shipped listings, the demonstration listing of Witness2.v and
+    value-perturbed copies; and membership of the TOUGH2-family listings in the class of the whole-file theorem"""
+    th = ctx.thorough
+    jobs = []
+    sims = {}
+    for r in results:
+        for k in r['stats']:
+            if k.startswith('sim_'): sims[r['rel']] = k[4:]
+    demo, err = W.run_exe(exe, ['demo\t-'])
+    if demo is None or not demo or not demo[0]:
+        ctx.proof_failures.append({'kind': 'proof', 'name': 'demo-listing', 'detail': 'the driver did not return the demonstration listing: ' + err})
+    else:
+        jobs.append(dict(rel='(Witness2.v demo listing)', lines=demo[0].split(','), skips='all', fchk=True, exe=exe, sim='TOUGH2', size=0, demo=True))
+    for f in files:
+        rel = os.path.relpath(f, root)
+        size = os.path.getsize(f)
+        fam = not (rel.startswith('AUTOUGH2') or rel.startswith('TOUGHplus'))
+        jobs.append(dict(rel=rel, src=f, skips='all' if th else ('some' if size < 600000 else 'none'), fchk=fam, exe=exe, sim=sims.get(rel), size=size))
+    # value-perturbed copies (substitution lists found by the first pass), smaller files first
+    var = [r for r in results if r.get('variant') and r.get('subs')]
+    per_file = {}
+    for r in var:
+        k = per_file.get(r['rel'], 0)
+        if k >= (6 if th else 1): continue
+        src = os.path.join(root, r['rel'])
+        if not th and os.path.getsize(src) >= 600000: continue
+        per_file[r['rel']] = k + 1
+        jobs.append(dict(rel=r['rel'], src=src, subs=r['subs'], skips='none', fchk=False, exe=exe, sim=sims.get(r['rel']), size=os.path.getsize(src)))
+    jobs.sort(key=lambda j: -j['size'])
+    with multiprocessing.Pool(vf.NPROC) as pool:
+        out = pool.map(W.file_job, jobs, chunksize=1)
+    ncase = cells = visits = 0
+    inclass, outclass = [], {}
+    for j, r in zip(jobs, out):
+        if r['error']:
+            ctx.proof_failures.append({'kind': 'correspondence', 'name': FILE_CORR, 'detail': '%s: %s' % (r['rel'], r['error'])})
+            continue
+        for run in r['runs']:
+            ncase += 1
+            if run['ndiffs']:
+                d = run['diffs'][0]
+                ctx.disagreement(FILE_CORR, {'file': None if j.get('demo') else r['rel'], 'subs': r['subs'], 'skip': run['skip'], 'indices': run['idxs'], 'what': d[0]},
+                                 d[2], d[1])
+        cells += r['cells']; visits += r['visits']
+        if r['fchk'] is not None and not r['subs']:
+            if r['fchk'].startswith('INCLASS'): inclass.append(r['rel'])
+            else: outclass[r['rel']] = r['fchk']
+        if j.get('demo') and not (r['fchk'] or '').startswith('INCLASS'):
+            ctx.proof_failures.append({'kind': 'correspondence', 'name': 'demo-listing-in-class', 'detail': str(r['fchk'])})
+    ctx.corr_cases(FILE_CORR, ncase, result_set_visits=visits, cells_compared=cells, listings=len(jobs))
+    ctx.hyp_met['listing_codec_law'] = {'tough2_family_listings_checked': len(inclass) + len(outclass),
+                                        'in_the_class_of_the_theorem(file_check=Some)': sorted(inclass),
+                                        'outside_the_class': outclass}
+    ctx.log('file level: %d open/index runs, %d result-set visits, %d cells; in class: %d, outside: %s' % (ncase, visits, cells, len(inclass), outclass))
+
+
 def run_pool(jobs):
     with multiprocessing.Pool(vf.NPROC) as pool:
         return pool.map(W.process, jobs, chunksize=1)
@@ -127,7 +187,7 @@ def run(ctx):
     ctx.stage()
     pool = multiprocessing.Pool(vf.NPROC)                # forked before any thread exists
     async_res = pool.map_async(W.process, jobs, chunksize=1)
-    ok = ctx.coq_build(timeout=1500)
+    ok = ctx.coq_build(props=('Props.v', 'Props2.v'), timeout=1500)
     exe = vf.build_driver(ctx) if os.path.exists(os.path.join(ctx.build, 'Drv.ml')) else None
     if exe is None and ok:
         ctx.proof_failures.append({'kind': 'proof', 'name': 'extraction', 'detail': 'Drv.ml was not produced'})
@@ -138,6 +198,7 @@ def run(ctx):
     if exe:
         cnt = correspond(ctx, exe, results)
         ctx.log('correspondence cases:', cnt)
+        file_level(ctx, exe, files, root, results)
     plain = [r for r in results if not r.get('variant')]
     var = [r for r in results if r.get('variant') and r.get('subs')]
     ctx.oracle_cases('shipped-listings', len(plain), rows=sum(r['stats'].get('rows', 0) for r in plain),
